@@ -2,7 +2,8 @@
 (* The command-line tool as a small machine (C20).  A run is                 *)
 (*   Start -> OpenOutput -> ReadInput -> Compile -> WriteOut -> Exit(0)      *)
 (*                                               \-> PrintErr -> Exit(1)     *)
-(* Flags: style, nocharset, quiet, nounicode, lps (number of --load-path),   *)
+(* Flags: style, nocharset, quiet, nounicode, lps (0, 1, 2 load paths; 3 = the *)
+(* two load paths in the opposite order),                                   *)
 (* stdin (input from --stdin), tofile (an output file is named).             *)
 (* Input classes: what the library does with the input under those options.  *)
 EXTENDS Naturals, Sequences, FiniteSets
@@ -19,6 +20,7 @@ LibOk(class, flags) ==
 VARIABLES phase, stdout, stderr, outfile, exit
 vars == <<phase, stdout, stderr, outfile, exit>>
 
+\* The output file may exist before the run with older, longer content ("stale"); opening it truncates it.
 \* stdout/outfile: "none" (nothing written / file absent), "empty" (file created, nothing in it), "css"
 \* stderr: set of chunks among {"warning", "error", "ioerror"}
 Init == phase = "start" /\ stdout = "none" /\ stderr = {} /\ outfile = "none" /\ exit = 9
